@@ -1,8 +1,8 @@
 package main
 
 import (
-	"go/ast"
 	"fmt"
+	"go/ast"
 	"go/token"
 	"go/types"
 	"regexp/syntax"
@@ -2042,7 +2042,9 @@ func ruleHashAfterWalk(id string) func(*Checker) {
 		}
 		workDir := fetch.Call.Args[len(fetch.Call.Args)-1]
 		var walkOK []Edge
-		for _, ci := range callsTo(fn, func(o *types.Func) bool { return isFunc(o, "path/filepath", "Walk") || isFunc(o, "path/filepath", "WalkDir") }) {
+		for _, ci := range callsTo(fn, func(o *types.Func) bool {
+			return isFunc(o, "path/filepath", "Walk") || isFunc(o, "path/filepath", "WalkDir")
+		}) {
 			cl, ok := ci.(*ssa.Call)
 			if !ok || canon(cl.Call.Args[0]) != canon(workDir) {
 				continue
